@@ -273,6 +273,15 @@ func ruleC11Strict(e *Env) {
 			return pred.Const{V: constant.MakeBool(true)}, nil
 		},
 	}
+	newInlined(sums, func(a []pred.Val) pred.Val { return pred.Term{Fn: "New", Args: a} })
+	for k, acc := range []string{"Year", "Month", "Day"} {
+		k := k
+		if _, has := sums["(go.lstv.dev/util/date.Date)."+acc]; !has {
+			sums["(go.lstv.dev/util/date.Date)."+acc] = func(ev *pred.Evaluator, args []pred.Val) (pred.Val, error) {
+				return pred.Term{Fn: fmt.Sprintf("Date#%d", k), Args: args[:1]}, nil
+			}
+		}
+	}
 	fixed := func(x, y pred.Val) (int, bool, bool) {
 		xs, ys := x.String(), y.String()
 		if strings.Contains(xs, "New(") && strings.Contains(xs, "Date#") || strings.Contains(ys, "New(") && strings.Contains(ys, "Date#") {
